@@ -7,7 +7,7 @@ import ChessVerif.Lemmas.Attack
 import ChessVerif.Lemmas.Refine
 import ChessVerif.Lemmas.Material
 import ChessVerif.Lemmas.WfHyp
-import ChessVerif.Lemmas.EpExact
+import ChessVerif.Lemmas.WfStep
 namespace Chess.Props
 
 theorem contains_iff_count (k : Nat) (l : List Nat) : l.contains k = decide (1 ≤ countEq k l) := by
@@ -92,6 +92,12 @@ theorem C07_mate_stalemate_exact (p : Position) (hwf : Spec.wf (Chess.absPos p) 
   unfold isCheckmate isStalemate Spec.isMate Spec.isStalemate
   rw [hempty, hchk]
   exact ⟨rfl, rfl⟩
+
+/-- C07 on every position of every legal game from the initial position: check, checkmate and stalemate are the rules' -/
+theorem C07_reachable (ms : List Spec.SMove) (h : LegalGame startSPos ms) (p : Position)
+    (hp : Chess.absPos p = ms.foldl Spec.apply startSPos) :
+    isCheckmate p = Spec.isMate (Chess.absPos p) ∧ isStalemate p = Spec.isStalemate (Chess.absPos p) :=
+  C07_mate_stalemate_exact p (by rw [hp]; exact wf_reachable ms h)
 
 /-- C07 (check): on every board with piece codes 0..12, exactly one king of the side in question, and no enemy king on
     a neighbouring square, the engine's bitboard test `is_in_check` (pawn and knight masks, magic-table slider lookups)
